@@ -1304,6 +1304,25 @@ func (c *Ctx) flowsFrom(v ssa.Value, hit func(ssa.Value) bool) bool {
 				}
 			}
 			return false
+		case *ssa.MakeSlice:
+			// make([]T, n) filled by index: its size, and whatever is stored into its elements
+			if walk(y.Len, d+1) || walk(y.Cap, d+1) {
+				return true
+			}
+			if y.Referrers() != nil {
+				for _, r := range *y.Referrers() {
+					ia, ok := r.(*ssa.IndexAddr)
+					if !ok || ia.Referrers() == nil {
+						continue
+					}
+					for _, u := range *ia.Referrers() {
+						if st, ok := u.(*ssa.Store); ok && st.Addr == ssa.Value(ia) && walk(st.Val, d+1) {
+							return true
+						}
+					}
+				}
+			}
+			return false
 		case *ssa.TypeAssert:
 			return walk(y.X, d+1)
 		case *ssa.MakeInterface:
